@@ -51,7 +51,7 @@ func c13Kind(b behaviour, op string) string {
 func TestC13(t *testing.T) {
 	r := mon.Open(t, "C13")
 	mon.Register(r, "request", c13Run)
-	single := []string{bHonest, bNotFound, bEmpty, bHang, bReset, bOtherHash, bShifted, bWrongChain, bInvalid, bStatus0, bStatus7, bStatusNeg, bTruncated, bOversized, bGarbage, bPanic, bExtra}
+	single := []string{bHonest, bNotFound, bEmpty, bHang, bReset, bOtherHash, bShifted, bWrongChain, bNoChain, bInvalid, bStatus0, bStatus7, bStatusNeg, bTruncated, bOversized, bGarbage, bPanic, bExtra}
 	// every behaviour alone, and every behaviour next to one honest peer that is slower / faster
 	for _, op := range []string{"get", "byheight"} {
 		for _, k := range single {
